@@ -109,6 +109,25 @@ def _cells(ctx, rng, tier):
     for a in ctx.c(ops, tag="edgecells"):
         if ok(a):
             cells.append(int(a.split()[1], 16))
+    # neighbourhoods of the 20 icosahedron face centres at the finest resolutions (projection degenerates there:
+    # short-distance branches of the forward / inverse gnomonic code), and cells on the face-centre meridians
+    a = ctx.c(["facecenters"], tag="fc")[0].split()
+    ops = []
+    for i in range(20):
+        for r in ((15, 14, 13) if tier == "quick" else range(8, 16)):
+            ops.append(f"ll2c {a[2 + 2 * i]} {a[3 + 2 * i]} {r}")
+    apts = azimuth_points(ctx)
+    if tier == "quick":
+        apts = rng.sample(apts, min(len(apts), 100))
+    ops += [f"ll2c {f2bits(la)} {f2bits(ln)} {rng.choice([15, 14, 13, 12, 11, 10])}" for la, ln in apts]
+    for j, a_ in enumerate(ctx.c(ops, tag="fccells")):
+        if ok(a_):
+            h = int(a_.split()[1], 16)
+            if j < 20 * (3 if tier == "quick" else 8):
+                d = nb.bfs(h, 3 if tier == "quick" else 5)
+                cells += list(d.keys()) if d else [h]
+            else:
+                cells.append(h)
     for _ in range(3000 if tier == "quick" else 60000):
         cells.append(gen.rand_cell(rng))
     return list(dict.fromkeys(cells)), nedges
